@@ -23,7 +23,7 @@ FACETS = {1: ["xmin", "xmax"], 2: ["xmin", "xmax", "ymin", "ymax"]}
 NORMALS = {1: [(-1,), (1,)], 2: [(-1, 0), (1, 0), (0, -1), (0, 1)]}
 
 
-def bc_ob(cond, d, time, n_pts, m, sel, fshape, form, via="apply", tag_extra="", slice_solution=None):
+def bc_ob(cond, d, time, n_pts, m, sel, fshape, form, via="apply", tag_extra="", slice_solution=None, key_order=None):
     """
     cond: 'dirichlet' | 'neumann' | dict facet-> 'dirichlet'/'neumann'/None (form == 'dict')
     sel: slice of outputs the condition applies to; fshape: shape returned by f; n_pts: border rows in the batch
@@ -50,9 +50,11 @@ def bc_ob(cond, d, time, n_pts, m, sel, fshape, form, via="apply", tag_extra="",
             else:
                 batch = PDEStatioBatch(inside_batch=jnp.zeros((1, din)), border_batch=bb)
             if form == "dict":
-                fun = {fa: (user_f(fa) if conds[fa] is not None else None) for fa in FACETS[d]}
-                cnd = dict(conds)
-                dim = {fa: (sel.start if via == "evaluate_int" else sel) for fa in FACETS[d]}
+                # the dictionaries may be written in any key order: an entry belongs to the facet it *names*
+                order = key_order or FACETS[d]
+                fun = {fa: (user_f(fa) if conds[fa] is not None else None) for fa in order}
+                cnd = {fa: conds[fa] for fa in order}
+                dim = {fa: (sel.start if via == "evaluate_int" else sel) for fa in order}
             else:
                 fun, cnd, dim = user_f(FACETS[d][0]), cond, sel
             if via == "apply":
@@ -152,4 +154,19 @@ def obligations(tier):
                     continue
                 obs.append(bc_ob(dct, d, time, r2, 2, s12, (), "dict", via="evaluate_int"))
             obs.append(bc_ob(skipn, d, time, r2, 2, s12, (), "dict", via="evaluate_int"))
+            # dictionaries written in another key order than xmin, xmax, ymin, ymax
+            rev = list(reversed(fac))
+            rot = fac[2:] + fac[:2] if d == 2 else rev
+            for via_ in ("apply", "evaluate"):
+                obs.append(bc_ob(mixed, d, time, rows, 1, s01, (1,), "dict", via=via_, tag_extra=",keys_written=" + "/".join(rot), key_order=rot))
+            obs.append(bc_ob(skipn, d, time, rows, 1, s01, (1,), "dict", tag_extra=",keys_written=" + "/".join(rev), key_order=rev))
+    # separable networks (forward-mode branches of the four boundary functions): the C11 contract, reported under C04
+    from contracts import c11
+    for cond in ("d", "n"):
+        for time in (False, True):
+            for dx in (1, 2):
+                for facet in range(2 * dx):
+                    o = c11.boundary_ob(cond, time, dx, 1, 2, facet)
+                    o.name = o.name.replace("C11/", "C04/").replace("grid_entry_equals_pointwise", "ensures.grid")
+                    obs.append(o)
     return obs
